@@ -33,13 +33,13 @@ Fixpoint nscan (m : nmode) (cur : list (list N)) (l : list N) {struct l} : list 
       else if is_space c then nscan NNormal cur r
       else if c =? 35 then nscan NHash cur r
       else nscan (NField [c]) cur r in
-    let comment :=                                             (* skip to the end of the line *)
+    let comment (_ : unit) :=                                  (* skip to the end of the line *)
       if c =? 10 then emit cur (nscan NNormal [] r) else nscan NComment cur r in
     match m with
     | NNormal => normal cur
-    | NComment => comment
-    | NHash => if c =? 58 then nscan NHashColon cur r else comment
-    | NHashColon => if is_alpha c then nscan (NField [c; 58; 35]) cur r else comment
+    | NComment => comment tt
+    | NHash => if c =? 58 then nscan NHashColon cur r else comment tt
+    | NHashColon => if is_alpha c then nscan (NField [c; 58; 35]) cur r else comment tt
     | NField acc => if is_space c then normal (rev acc :: cur) else nscan (NField (c :: acc)) cur r
     end
   end.
